@@ -362,7 +362,9 @@ def parseKeyed (s : String) : Option Scripts :=
       if script.all (fun r => match r with | .page .. => true | .fail (.srv _) => true | _ => false) then pure (key, script) else none
     | _ => none
 
-def histAnswer (vn kind consumer scriptsS stepsS : String) : String :=
+def histAnswer (vn0 kind consumer scriptsS stepsS : String) : String :=
+  -- `z<bits>` (snappy negotiated, which answers carry the compression flag) does not change any answer
+  let vn := (vn0.splitOn "z").headD vn0
   let vparts := ((vn.drop 1).toString).splitOn "n"
   let nodes := match vparts with | [_, n] => n.toNat?.getD 0 | _ => 1
   match vparts.head?.bind (·.toNat?), parseKeyed scriptsS with
